@@ -114,6 +114,7 @@ pub fn families(tier: Tier) -> Vec<Family> {
     }
     for size in 1..=tier.pick(3, 4) {
         for it in INT_TYS {
+
             // quick: every width sees sizes 1-2; size 3 on a rotating pair of widths plus i32
             let t = Ty::Int(it);
             v.push(Family {
@@ -216,24 +217,39 @@ pub fn programs(f: &Family, cfg: &Cfg) -> Vec<Program> {
             let es = if f.ret == Ty::Bool { bool_exprs(&f.t, 0, 0, &lv) } else { num_exprs(&f.t, 1, &lv) };
             es.into_iter().map(single).collect()
         }
-        Kind::Skel { size, nest } => {
+        Kind::Skel { .. } => {
             let Ty::Int(it) = f.t else { unreachable!() };
-            let all = bodies(*size, *nest);
-            // quick tier: size-3 skeletons are split over the 8 widths (each body
-            // runs on the width picked by its index + seed; i32 sees all of them)
-            let all: Vec<_> = if *size >= cfg.tier.pick(3, 4) && it != IntTy::I32 {
-                let my = INT_TYS.iter().position(|x| *x == it).unwrap();
-                all.into_iter()
-                    .enumerate()
-                    .filter(|(i, _)| (i + cfg.seed as usize) % INT_TYS.len() == my)
-                    .map(|(_, b)| b)
-                    .collect()
-            } else {
-                all
-            };
-            all.iter().map(|b| skeleton_program(it, b)).collect()
+            skel_bodies(f, cfg).iter().map(|b| skeleton_program(it, b)).collect()
         }
         Kind::Templates => vec![Program::default(); templates::all().len()],
+    }
+}
+
+/// the skeletons of a `Skel` family (a skeleton is a few hundred bytes, its
+/// program 20 KB: the largest family has 888 246 of them, so programs are
+/// expanded per chunk, see `family_slice`)
+pub fn skel_bodies(f: &Family, cfg: &Cfg) -> Vec<Vec<Node>> {
+    let (Kind::Skel { size, nest }, Ty::Int(it)) = (&f.kind, &f.t) else { unreachable!() };
+    let all = bodies(*size, *nest);
+    // the largest size of a tier is split over the 8 widths (each body runs on
+    // the width picked by its index + seed; i32 sees all of them)
+    if *size >= cfg.tier.pick(3, 4) && *it != IntTy::I32 {
+        let my = INT_TYS.iter().position(|x| x == it).unwrap();
+        all.into_iter()
+            .enumerate()
+            .filter(|(i, _)| (i + cfg.seed as usize) % INT_TYS.len() == my)
+            .map(|(_, b)| b)
+            .collect()
+    } else {
+        all
+    }
+}
+
+/// number of programs of a family without expanding the skeleton families
+pub fn family_len(f: &Family, cfg: &Cfg) -> usize {
+    match f.kind {
+        Kind::Skel { .. } => skel_bodies(f, cfg).len(),
+        _ => programs(f, cfg).len(),
     }
 }
 
@@ -257,6 +273,32 @@ pub fn family_inputs(f: &Family, tier: Tier) -> Vec<(V, V)> {
         vals.sort();
         vals.dedup();
         return vals.into_iter().map(|a| (V::Int(*it, a), V::Int(*it, 1))).collect();
+    }
+    if let (Kind::Table, Ty::Int(it)) = (&f.kind, &f.t) {
+        if it.bits() == 16 {
+            // the full 2^32 square is out of reach: every value of one operand against
+            // seven pivots of the other, both ways (917 490 pairs; the input index of a
+            // case has 20 bits)
+            let pivots: Vec<i128> = if it.signed() {
+                vec![it.min_val(), -1, 0, 1, 255, 256, it.max_val()]
+            } else {
+                vec![0, 1, 255, 256, 32767, 32768, it.max_val()]
+            };
+            let mut out = Vec::with_capacity(2 * 7 * 65536);
+            for a in it.min_val()..=it.max_val() {
+                for &b in &pivots {
+                    out.push((V::Int(*it, a), V::Int(*it, b)));
+                }
+            }
+            for &a in &pivots {
+                for b in it.min_val()..=it.max_val() {
+                    if !pivots.contains(&b) {
+                        out.push((V::Int(*it, a), V::Int(*it, b)));
+                    }
+                }
+            }
+            return out;
+        }
     }
     let one: Vec<V> = match (&f.kind, &f.t) {
         (Kind::Table, Ty::Int(it)) => (it.min_val()..=it.max_val()).map(|v| V::Int(*it, v)).collect(),
@@ -282,27 +324,84 @@ pub fn family_inputs(f: &Family, tier: Tier) -> Vec<(V, V)> {
     out
 }
 
+/// The unit table needs the size of every family, i.e. every family generated once
+/// (thorough: 40 s and gigabytes). The parent does that in `preflight`, writes the
+/// table to a file and names it in `C01_UNIT_TABLE`; workers (which inherit the
+/// environment) read it.
 fn unit_table(cfg: &Cfg) -> &'static Vec<(usize, usize)> {
     static TABLE: std::sync::OnceLock<Vec<(usize, usize)>> = std::sync::OnceLock::new();
-    TABLE.get_or_init(|| unit_table_compute(cfg))
+    TABLE.get_or_init(|| {
+        if let Ok(path) = std::env::var("C01_UNIT_TABLE") {
+            if let Some(t) = read_unit_table(&path, cfg) {
+                return t;
+            }
+        }
+        unit_table_compute(cfg)
+    })
+}
+
+fn read_unit_table(path: &str, cfg: &Cfg) -> Option<Vec<(usize, usize)>> {
+    let v: Value = vcore::serde_json::from_str(&std::fs::read_to_string(path).ok()?).ok()?;
+    if v["tier"] != cfg.tier.name() || v["seed"] != cfg.seed {
+        return None;
+    }
+    // (family index, number of chunks)
+    let mut t = vec![];
+    for e in v["chunks_per_family"].as_array()? {
+        let (fi, n) = (e[0].as_u64()? as usize, e[1].as_u64()? as usize);
+        t.extend((0..n).map(|c| (fi, c)));
+    }
+    Some(t)
+}
+
+fn write_unit_table(cfg: &Cfg) -> Result<(), String> {
+    let t = unit_table(cfg);
+    let mut per: Vec<(usize, usize)> = vec![];
+    for &(fi, c) in t {
+        match per.last_mut() {
+            Some((f, n)) if *f == fi => *n = c + 1,
+            _ => per.push((fi, c + 1)),
+        }
+    }
+    let dir = std::path::Path::new("/verif/work/c01");
+    std::fs::create_dir_all(dir).map_err(|e| e.to_string())?;
+    let path = dir.join(format!("units-{}-{}.json", cfg.tier.name(), std::process::id()));
+    let v = json!({"tier": cfg.tier.name(), "seed": cfg.seed, "chunks_per_family": per});
+    std::fs::write(&path, v.to_string()).map_err(|e| e.to_string())?;
+    // SAFETY: single-threaded at this point (before the pool is started)
+    unsafe { std::env::set_var("C01_UNIT_TABLE", &path) };
+    Ok(())
+}
+
+enum Cached {
+    Progs(std::rc::Rc<Vec<Program>>),
+    Skel(IntTy, std::rc::Rc<Vec<Vec<Node>>>),
 }
 
 thread_local! {
-    static LAST: std::cell::RefCell<Option<(usize, std::rc::Rc<Vec<Program>>)>> = const { std::cell::RefCell::new(None) };
+    static LAST: std::cell::RefCell<Option<(usize, Cached)>> = const { std::cell::RefCell::new(None) };
 }
 
-/// programs of family `fi`, cached (consecutive units mostly share the family)
-fn family_programs(fi: usize, cfg: &Cfg) -> std::rc::Rc<Vec<Program>> {
+/// programs `lo..hi` (clamped) of family `fi`; the family is cached (consecutive
+/// units mostly share it), skeleton families as skeletons
+fn family_slice(fi: usize, cfg: &Cfg, lo: usize, hi: usize) -> Vec<Program> {
     LAST.with(|l| {
         let mut l = l.borrow_mut();
-        if let Some((i, p)) = &*l {
-            if *i == fi {
-                return p.clone();
-            }
+        if !matches!(&*l, Some((i, _)) if *i == fi) {
+            // drop the previous family first, and give the pages back
+            *l = None;
+            let f = &families(cfg.tier)[fi];
+            let c = match (&f.kind, &f.t) {
+                (Kind::Skel { .. }, Ty::Int(it)) => Cached::Skel(*it, std::rc::Rc::new(skel_bodies(f, cfg))),
+                _ => Cached::Progs(std::rc::Rc::new(programs(f, cfg))),
+            };
+            unsafe { libc::malloc_trim(0) };
+            *l = Some((fi, c));
         }
-        let p = std::rc::Rc::new(programs(&families(cfg.tier)[fi], cfg));
-        *l = Some((fi, p.clone()));
-        p
+        match &l.as_ref().unwrap().1 {
+            Cached::Progs(p) => p[lo.min(p.len())..hi.min(p.len())].to_vec(),
+            Cached::Skel(it, b) => b[lo.min(b.len())..hi.min(b.len())].iter().map(|b| skeleton_program(*it, b)).collect(),
+        }
     })
 }
 
@@ -311,7 +410,8 @@ fn unit_table_compute(cfg: &Cfg) -> Vec<(usize, usize)> {
     let fams = families(cfg.tier);
     let mut v = vec![];
     for (fi, f) in fams.iter().enumerate() {
-        let n = programs(f, cfg).len();
+        let n = family_len(f, cfg);
+        unsafe { libc::malloc_trim(0) };
         let chunk = chunk_of(f);
         for c in 0..n.div_ceil(chunk) {
             v.push((fi, c));
@@ -550,6 +650,14 @@ impl Check for C01 {
     fn units(&self, cfg: &Cfg) -> usize {
         unit_table(cfg).len()
     }
+    fn preflight(&self, cfg: &Cfg) -> Result<(), String> {
+        write_unit_table(cfg)
+    }
+    fn finish(&self, _cfg: &Cfg, _agg: &mut vcore::Aggregate) {
+        if let Ok(p) = std::env::var("C01_UNIT_TABLE") {
+            let _ = std::fs::remove_file(p);
+        }
+    }
     fn max_deaths_per_unit(&self, _cfg: &Cfg) -> u32 {
         // a well-typed generated program must never kill the process: a few
         // deaths are enough evidence, re-running the unit after each is wasted
@@ -562,20 +670,18 @@ impl Check for C01 {
         cx.case(SUB_SETUP);
         let (fi, c) = unit_table(&cx.cfg)[unit];
         let f = families(cx.cfg.tier)[fi].clone();
-        let all = family_programs(fi, &cx.cfg);
         let chunk = chunk_of(&f);
         let lo = c * chunk;
-        let hi = (lo + chunk).min(all.len());
         if let Kind::Templates = f.kind {
-            run_templates(lo, hi, cx);
+            run_templates(lo, (lo + chunk).min(templates::all().len()), cx);
             return;
         }
-        run_chunk(&f, &all[lo..hi], lo, cx);
+        let progs = family_slice(fi, &cx.cfg, lo, lo + chunk);
+        run_chunk(&f, &progs, lo, cx);
     }
     fn describe(&self, cfg: &Cfg, unit: usize, sub: u64) -> Value {
         let (fi, c) = unit_table(cfg)[unit];
         let f = families(cfg.tier)[fi].clone();
-        let all = family_programs(fi, cfg);
         let chunk = chunk_of(&f);
         if sub == SUB_SETUP {
             return json!({"family": f.name, "chunk": c, "phase": "batch compile"});
@@ -589,7 +695,8 @@ impl Check for C01 {
         }
         let inputs = family_inputs(&f, cfg.tier);
         let (a, b) = inputs.get(k).map(|(a, b)| (a.show(), b.show())).unwrap_or_default();
-        json!({"family": f.name, "program": all.get(i).map(print_program), "a": a, "b": b, "index": i})
+        let prog = family_slice(fi, cfg, i, i + 1);
+        json!({"family": f.name, "program": prog.first().map(print_program), "a": a, "b": b, "index": i})
     }
     fn matches(&self, _f: &Finding, _v: &Violation) -> bool {
         false
@@ -607,6 +714,23 @@ impl Check for C01 {
             transitions_are: "calls of a compiled program on one input vector, each compared with the reference".into(),
         }
     }
+}
+
+pub fn print_counts(thorough: bool) {
+    let cfg = Cfg { tier: if thorough { Tier::Thorough } else { Tier::Quick }, seed: 0 };
+    let mut total = 0usize;
+    let only = std::env::var("C01_ONLY").ok();
+    for f in families(cfg.tier) {
+        if only.as_ref().is_some_and(|o| !f.name.starts_with(o.as_str())) {
+            continue;
+        }
+        let t = std::time::Instant::now();
+        let n = family_len(&f, &cfg);
+        unsafe { libc::malloc_trim(0) };
+        total += n;
+        println!("{:28} programs={:9} inputs={:5} gen={:?}", f.name, n, family_inputs(&f, cfg.tier).len(), t.elapsed());
+    }
+    println!("total programs {total}");
 }
 
 pub fn run() -> ! {
